@@ -104,6 +104,7 @@ Definition all_long (st : pstate) : Prop :=
 Lemma parseLong_loop_long s eq specs o b : parseLong_loop s eq specs = Some (o, b) -> o_long o = true.
 Proof.
   induction specs as [|sp r IH]; simpl; [discriminate|].
+  destruct (is_nil (s_long sp)); [exact IH|].
   destruct (str_eqb s (s_long sp)); [intros H; inversion H; reflexivity|].
   destruct eq as [e|]; [|exact IH].
   destruct (str_eqb (firstn e s) (s_long sp)); [intros H; inversion H; reflexivity|exact IH].
@@ -192,13 +193,12 @@ Lemma errs_of_meaning cv items : errs_of (meaning cv items) = ref_errs items.
 Proof. reflexivity. Qed.
 
 Lemma Parse_is_ref cs specs : longs_no_eq specs = true -> forall args,
-  forallb (item_ok specs) (tokenize (conv_of cs) specs false args) = true ->
   Parse (bits_of cs) specs args =
   (flat_map item_opts (tokenize (conv_of cs) specs false args),
    flat_map item_non (tokenize (conv_of cs) specs false args),
    ref_errs (tokenize (conv_of cs) specs false args)).
 Proof.
-  intros Hne args Hok. unfold Parse. rewrite (parse_is_ref cs specs Hne args Hok). reflexivity.
+  intros Hne args. unfold Parse. rewrite (parse_is_ref cs specs Hne args). reflexivity.
 Qed.
 
 (* an error is reported exactly when an argument is missing or an option is unknown *)
@@ -237,30 +237,42 @@ Proof.
       rewrite F. reflexivity.
 Qed.
 
-(* ---------- a known long option comes from a spec with a long name ---------- *)
+(* ---------- a known option comes from a spec that has that kind of name ---------- *)
+Definition named_for (o : opt) : Prop :=
+  if o_long o then s_long (o_spec o) <> [] else s_short (o_spec o) <> 0.
+
 Definition from_specs (specs : list ospec) (o : opt) : Prop :=
-  o_unknown o = true \/ In (o_spec o) specs.
+  o_unknown o = true \/ (In (o_spec o) specs /\ named_for o).
 
 Lemma parseLong_loop_from s eq specs o b :
-  parseLong_loop s eq specs = Some (o, b) -> In (o_spec o) specs.
+  parseLong_loop s eq specs = Some (o, b) ->
+  In (o_spec o) specs /\ o_long o = true /\ s_long (o_spec o) <> [].
 Proof.
   induction specs as [|sp r IH]; simpl; [discriminate|].
-  destruct (str_eqb s (s_long sp)); [intros H; inversion H; left; reflexivity|].
-  destruct eq as [e|]; [|intros H; right; auto].
-  destruct (str_eqb (firstn e s) (s_long sp)); [intros H; inversion H; left; reflexivity|intros H; right; auto].
+  destruct (is_nil (s_long sp)) eqn:Hn; [intros H; destruct (IH H) as (A & B & C); auto|].
+  apply is_nil_false in Hn.
+  destruct (str_eqb s (s_long sp)); [intros H; inversion H; cbn; auto|].
+  destruct eq as [e|]; [|intros H; destruct (IH H) as (A & B & C); auto].
+  destruct (str_eqb (firstn e s) (s_long sp)); [intros H; inversion H; cbn; auto|].
+  intros H; destruct (IH H) as (A & B & C); auto.
 Qed.
 
 Lemma parseLong_from s specs : from_specs specs (fst (parseLong s specs)).
 Proof.
   unfold parseLong. destruct (parseLong_loop s (index_of EQ s) specs) as [[o b]|] eqn:E.
-  - right. eapply parseLong_loop_from; eauto.
+  - right. apply parseLong_loop_from in E as (A & B & C). cbn. split; [exact A|].
+    unfold named_for. rewrite B. exact C.
   - left. destruct (index_of EQ s); reflexivity.
 Qed.
 
-Lemma findShort_in r specs sp : findShort r specs = Some sp -> In sp specs.
+Lemma findShort_in r specs sp : findShort r specs = Some sp -> In sp specs /\ s_short sp <> 0.
 Proof.
   induction specs as [|x l IH]; simpl; [discriminate|].
-  destruct (N.eqb r (s_short x)); [intros H; inversion H; auto|auto].
+  destruct (N.eqb (s_short x) 0) eqn:Z; cbn [negb andb].
+  - intros H; destruct (IH H); auto.
+  - destruct (N.eqb r (s_short x)).
+    + intros H; inversion H; subst. split; [auto|]. apply N.eqb_neq. exact Z.
+    + intros H; destruct (IH H); auto.
 Qed.
 
 Lemma parseShort_from s specs :
@@ -268,11 +280,13 @@ Lemma parseShort_from s specs :
 Proof.
   induction s as [|r rest IH]; simpl; [constructor|].
   destruct (findShort r specs) as [sp|] eqn:F.
-  - apply findShort_in in F. destruct (s_arity sp).
-    + destruct (parseShort rest specs) as [os b]. cbn in *. constructor; [|exact IH].
-      split; [right; exact F|reflexivity].
-    + cbn. constructor; [split; [right; exact F|reflexivity]|constructor].
-    + cbn. constructor; [split; [right; exact F|reflexivity]|constructor].
+  - apply findShort_in in F as [F Fz].
+    assert (G : forall a, from_specs specs (mkOpt sp false false a) /\ o_long (mkOpt sp false false a) = false).
+    { intros a. split; [right; cbn; split; [exact F|exact Fz]|reflexivity]. }
+    destruct (s_arity sp).
+    + destruct (parseShort rest specs) as [os b]. cbn in *. constructor; [apply G|exact IH].
+    + cbn. constructor; [apply G|constructor].
+    + cbn. constructor; [apply G|constructor].
   - cbn. constructor; [split; [left; reflexivity|reflexivity]|constructor].
 Qed.
 
@@ -311,7 +325,7 @@ Proof.
   intros [Ho Hp]. unfold step. destruct (st_pend st) as [o|] eqn:Pe.
   - split; cbn; [|intros o' E; discriminate].
     apply Forall_app; split; [exact Ho|]. constructor; [|constructor].
-    specialize (Hp o eq_refl). unfold from_specs in *. cbn. exact Hp.
+    specialize (Hp o eq_refl). unfold from_specs, named_for in *. cbn. exact Hp.
   - destruct (st_stop st); [split; cbn; [exact Ho|intros o' E; discriminate]|].
     destruct (has cfg bitSADD && str_eqb w DD); [split; cbn; [exact Ho|intros o' E; discriminate]|].
     destruct (prefix2 w && negb (str_eqb w DD)).
@@ -340,46 +354,35 @@ Proof.
   apply G. split; cbn; [constructor|intros o E; discriminate].
 Qed.
 
-Lemma long_matches_only_long_specs_partial cfg specs args o :
-  forallb named_long specs = true ->
-  In o (st_opts (parse cfg specs args)) -> o_unknown o = false ->
-  s_long (o_spec o) <> [].
+(* every known option returned (or waiting) is one of the specs ... *)
+Lemma known_options_from_specs cfg specs args o :
+  In o (st_opts (parse cfg specs args)) \/ st_pend (parse cfg specs args) = Some o ->
+  o_unknown o = false -> In (o_spec o) specs.
 Proof.
-  intros Hn Hi Hu. destruct (parse_from cfg specs args) as [F _].
-  rewrite Forall_forall in F. destruct (F o Hi) as [C|C]; [congruence|].
-  rewrite forallb_forall in Hn. specialize (Hn _ C). unfold named_long in Hn.
-  destruct (s_long (o_spec o)); [discriminate|discriminate].
+  intros Hi Hu. destruct (parse_from cfg specs args) as [F P].
+  assert (X : from_specs specs o).
+  { destruct Hi as [Hi|Hi]; [rewrite Forall_forall in F; apply F; exact Hi|apply P; exact Hi]. }
+  destruct X as [C|[C _]]; [congruence|exact C].
 Qed.
 
-(* ---------- witnesses of the recorded defects ---------- *)
-Definition w_specs_short_only : list ospec := [mkSpec 97 [] ReqArg].      (* -a ARG, no long name *)
-Definition w_args_eq : list str := [[45; 45; 61; 120]].                     (* --=x *)
-
-Lemma long_matches_only_long_specs_refuted :
-  exists cfg specs args o,
-    In o (st_opts (parse cfg specs args)) /\ o_long o = true /\ o_unknown o = false
-    /\ s_long (o_spec o) = [].
+(* ... a long one only of a spec that has a long name ... *)
+Lemma long_matches_only_long_specs cfg specs args o :
+  In o (st_opts (parse cfg specs args)) \/ st_pend (parse cfg specs args) = Some o ->
+  o_unknown o = false -> o_long o = true -> s_long (o_spec o) <> [].
 Proof.
-  exists pkg_getopt.GNU, w_specs_short_only, w_args_eq, (mkOpt (mkSpec 97 [] ReqArg) false true [120]).
-  vm_compute. repeat split. left; reflexivity.
+  intros Hi Hu Hl. destruct (parse_from cfg specs args) as [F P].
+  assert (X : from_specs specs o).
+  { destruct Hi as [Hi|Hi]; [rewrite Forall_forall in F; apply F; exact Hi|apply P; exact Hi]. }
+  destruct X as [C|[_ C]]; [congruence|]. unfold named_for in C. rewrite Hl in C. exact C.
 Qed.
 
-Definition w_specs_long_only : list ospec := [mkSpec 0 [102; 111; 111] NoArg].  (* --foo, no short name *)
-Definition w_args_nul : list str := [[45; 0]].                                    (* -\0 *)
-
-Lemma short_matches_only_short_specs_refuted :
-  exists cfg specs args o,
-    In o (st_opts (parse cfg specs args)) /\ o_long o = false /\ o_unknown o = false
-    /\ s_short (o_spec o) = 0.
+(* ... and a short one only of a spec that has a short name *)
+Lemma short_matches_only_short_specs cfg specs args o :
+  In o (st_opts (parse cfg specs args)) \/ st_pend (parse cfg specs args) = Some o ->
+  o_unknown o = false -> o_long o = false -> s_short (o_spec o) <> 0.
 Proof.
-  exists pkg_getopt.GNU, w_specs_long_only, w_args_nul, (mkOpt (mkSpec 0 [102; 111; 111] NoArg) false false []).
-  vm_compute. repeat split. left; reflexivity.
-Qed.
-
-(* the reference disagrees with the model exactly there *)
-Lemma parse_is_reference_refuted :
-  exists cs specs args, longs_no_eq specs = true /\
-    st_opts (parse (bits_of cs) specs args) <> st_opts (ref_parse (conv_of cs) specs args).
-Proof.
-  exists CGNU, w_specs_short_only, w_args_eq. split; [reflexivity|]. vm_compute. discriminate.
+  intros Hi Hu Hl. destruct (parse_from cfg specs args) as [F P].
+  assert (X : from_specs specs o).
+  { destruct Hi as [Hi|Hi]; [rewrite Forall_forall in F; apply F; exact Hi|apply P; exact Hi]. }
+  destruct X as [C|[_ C]]; [congruence|]. unfold named_for in C. rewrite Hl in C. exact C.
 Qed.
